@@ -96,7 +96,7 @@ def gen_plan(rng, tier='quick', traces=None):
             if not worlds.integral(pts):
                 lay = rng.choice([l for l in layouts_enabled if l != 'int64'] or ['C'])
         pool.append({'kind': 'curve', 'family': fam, 'points': [[fhex(x), fhex(y)] for x, y in pts],
-                     'layout': lay, 'salt': rng.randrange(1 << 30), 'sibling': sib, 'readonly': rng.random() < 0.2})
+                     'layout': lay, 'salt': rng.randrange(1 << 30), 'sibling': sib, 'readonly': False})
     for ci in range(ncurves):
         n = len(pool[ci]['points'])
         if n >= 5 and rng.random() < 0.8:
@@ -113,14 +113,14 @@ def gen_plan(rng, tier='quick', traces=None):
                 k = rng.randint(1, min(7, n - 2)) if rng.random() < 0.95 else 0
                 vals = sorted(rng.sample(range(1, n - 1), k))
             pool.append({'kind': 'idx', 'curve': ci, 'values': vals, 'layout': rng.choice(['C', 'C', 'view', 'list', 'i32']),
-                         'salt': rng.randrange(1 << 30), 'readonly': rng.random() < 0.2})
+                         'salt': rng.randrange(1 << 30), 'readonly': False})
         if n >= 5 and rng.random() < 0.7:
             k = rng.randint(1, min(5, n - 2))
             idx = sorted(rng.sample(range(1, n - 1), k))
             pts = [[unhex(pool[ci]['points'][i][0]) + rng.choice([0.0, 0.0, 0.5, -0.25]),
                     unhex(pool[ci]['points'][i][1])] for i in idx]
             pool.append({'kind': 'expected', 'curve': ci, 'points': [[fhex(x), fhex(y)] for x, y in pts],
-                         'layout': rng.choice(['C', 'F', 'view']), 'salt': rng.randrange(1 << 30), 'readonly': rng.random() < 0.2})
+                         'layout': rng.choice(['C', 'F', 'view']), 'salt': rng.randrange(1 << 30), 'readonly': False})
     if rng.random() < 0.6:
         vals = rng.sample([0.5, 0.1, 0.05, 0.01, 0.001, 0.0001], rng.randint(2, 4))
         pool.append({'kind': 'tlist', 'values': [fhex(v) for v in vals], 'layout': 'list'})
@@ -317,9 +317,11 @@ def _call_step(step, objs, results, findings, where, type_only, iso=None):
     if iso is not None:
         # the same call, by value, in a process that has never run anything else
         ref = iso.call(fn, args, kw, budget.limit_for(_n_of(objs)), type_only)
+        if ref[0] == 'harness' and 'cannot transfer' in str(ref[1]):
+            return o          # an argument that cannot be pickled: no pristine-process verdict for this call
         if ref[0] == 'harness':
             raise isolate.ChildFailed(ref[1])
-        if ref != _enc_outcome(o):
+        if _exc_type(ref) != _exc_type(_enc_outcome(o)):
             findings.append({'oracle': 'P2', 'key': 'P2iso:%s' % fn, 'where': where, 'fn': fn,
                              'detail': {'in_client_history': _short(_enc_outcome(o)), 'pristine_process': _short(ref)}})
     return o
@@ -430,9 +432,27 @@ def _invoke(fn, args, kw, limit, findings, where, type_only):
         if worlds.link_witness(e):
             site = worlds.innermost_package_frame(e)
             if site is not None:
-                findings.append({'oracle': 'D', 'key': 'link:%s.%s:%s:%s' % (site[0], site[1], type(e).__name__, str(e)[:80]),
+                findings.append({'oracle': 'D', 'key': _link_key(site, e),
                                  'where': where, 'fn': fn, 'detail': '%s: %s' % (type(e).__name__, str(e)[:200])})
         return ('exc', worlds.enc_exc(e, type_only))
+
+
+def _link_key(site, e):
+    """site + exception type + the name that failed to resolve (not the whole message, which changes with
+    unrelated edits such as a renamed parameter)."""
+    import re
+    msg = str(e)
+    what = ''
+    if isinstance(e, NameError):
+        m = re.search(r"name '([^']+)'", msg)
+        what = m.group(1) if m else ''
+    elif isinstance(e, AttributeError):
+        m = re.search(r"module '([^']+)' has no attribute '([^']+)'", msg)
+        what = '%s.%s' % m.groups() if m else ''
+    else:
+        m = re.match(r"\s*([\w\.<>]+)\(\)", msg)
+        what = m.group(1) if m else ''
+    return 'link:%s.%s:%s:%s' % (site[0], site[1], type(e).__name__, what)
 
 
 def _iso_do(msg):
@@ -535,7 +555,15 @@ def _enc_outcome(o):
 
 
 def _by_value(e):
-    return e[:2] if e[0] == 'ok' else e
+    return e[:2] if e[0] == 'ok' else _exc_type(e)
+
+
+def _exc_type(e):
+    """Exceptions are compared by type between executions that received different representations of the
+    arguments (layout, dtype, contiguity after pickling): messages may legitimately quote them."""
+    if e[0] == 'exc' and isinstance(e[1], tuple) and len(e[1]) >= 2:
+        return ('exc', (e[1][0], e[1][1]))
+    return e
 
 
 def run_ref_client(plan, c):
@@ -588,6 +616,10 @@ def run_sim(plan, stats):
         worlds.install_poison(plan['poison_seed'], poison_sites)
     mon = worlds.Monitor()
     mon.install()
+    import sys as _sys
+    # every public call passes through one wrapper frame in this world: give recursive implementations the headroom
+    # they have without the monitor
+    _sys.setrecursionlimit(max(_sys.getrecursionlimit(), 1000) * 2 + 200)
     global _WORLD
     _WORLD = 'sim'
     objs = _materialise(plan['pool'], 'sim')
@@ -628,12 +660,15 @@ def run_sim(plan, stats):
             bump('budget_use.' + ('<1%' if use < 0.01 else '<10%' if use < 0.1 else '<50%' if use < 0.5 else '<100%' if use <= 1 else 'exceeded'))
         if o[0] == 'div':
             bump('budget_hits')
-        # P1 at public call boundaries
-        for (qual, arg, how) in mon.violations[nv:]:
+        # P1 at public call boundaries (not for a call cut by the step budget: its cleanup code was cut too)
+        for (qual, arg, how) in ([] if o[0] == 'div' else mon.violations[nv:]):
             findings.append({'oracle': 'P1', 'key': 'P1:%s:%s' % (qual, arg), 'where': [si, c, k], 'fn': step['fn'],
                              'detail': '%s modified its argument %s (%s)' % (qual, arg, how)})
         # P1 on the shared pool
         for pi, obj in enumerate(objs):
+            if worlds.snapshot(obj) != base[pi] and o[0] == 'div':
+                base[pi] = worlds.snapshot(obj)
+                continue
             if worlds.snapshot(obj) != base[pi]:
                 findings.append({'oracle': 'P1', 'key': 'P1pool:%s' % step['fn'], 'where': [si, c, k], 'fn': step['fn'],
                                  'detail': 'shared pool object %d (%s) changed during %s' % (pi, plan['pool'][pi]['kind'], step['fn'])})
@@ -756,7 +791,8 @@ def execute(plan, stats=None, want_events=True):
     findings.extend(f for f in ref_findings if f['key'] not in seen)
     for c in sorted(encs):
         for k in sorted(encs[c]):
-            if k in ref[c] and (encs[c][k] != ref[c][k] if not type_only_plan else _by_value(encs[c][k]) != _by_value(ref[c][k])):
+            if k in ref[c] and (_exc_type(encs[c][k]) != _exc_type(ref[c][k]) if not type_only_plan
+                                else _by_value(encs[c][k]) != _by_value(ref[c][k])):
                 fn = plan['clients'][c]['steps'][k]['fn']
                 findings.append({'oracle': 'P2', 'key': 'P2:%s' % fn, 'where': [None, c, k], 'fn': fn,
                                  'detail': {'isolated_world': _short(ref[c][k]), 'simulated_world': _short(encs[c][k])}})
